@@ -9,6 +9,7 @@ import dets
 import gen
 from common import Outcome, np, rng_for
 
+RULE_ADDENDA = ('a twin read only at a few random points vs one read after every update; every class in fresh interpreters started normally and with -O; heap-model object-graph scenarios (Python `is` relations) incl. a user-defined model class')
 LEVEL = "proof"
 EXPLANATION = ("Theorem (Lean): in the product of independent machines, projecting any interleaved schedule onto instance i gives exactly the run of instance i alone "
                "(frame lemma). The model has no shared state by construction, so it is the oracle for 'alone': this run drives 2-3 real detectors under every "
